@@ -35,6 +35,54 @@ def corr_of(c):
     return None
 
 
+BR_NAMES = ["ATHENA", "LOGOS", "A", "agent_1", "x.y"]
+BR_QUALS = ["wisdom", "q", "a-b", "v1"]
+
+
+def brace_stream(ctx):
+    """brace-for-angle repairs of octave_write(lenient=true): every unprotected NAME{q} site is rewritten to NAME<q> and must
+    yield exactly one W_REPAIR_CANDIDATE receipt (before/after), also when the same spelling occurs several times; sites
+    inside quoted strings, comments and literal zones are not rewritten and yield none."""
+    from octave_mcp.mcp.write import WriteTool
+    loop = asyncio.new_event_loop()
+    try:
+        for _ in range(ctx.scale(120, 2500)):
+            rng = random.Random(ctx.rng.random())
+            pool = [f"{rng.choice(BR_NAMES)}{{{rng.choice(BR_QUALS)}}}" for _ in range(rng.randint(1, 3))]
+            lines, want = ["===D==="], []
+            for i in range(rng.randint(1, 6)):
+                b = rng.choice(pool)
+                kind = rng.random()
+                if kind < 0.6:
+                    lines.append(f"K{i}::{b}")
+                    want.append((b, b.replace("{", "<").replace("}", ">")))
+                elif kind < 0.7:
+                    lines.append(f'K{i}::"see {b} here"')
+                elif kind < 0.8:
+                    lines.append(f"K{i}::1 // about {b}")
+                elif kind < 0.9:
+                    lines += [f"K{i}::", "```", f"raw {b}", "```"]
+                else:
+                    lines.append(f"K{i}::[{b},x]")
+                    want.append((b, b.replace("{", "<").replace("}", ">")))
+            t = "\n".join(lines + ["===END===", ""])
+            w = loop.run_until_complete(WriteTool().execute(target_path="/nonexistent-c07/b.oct.md", content=t,
+                                                            corrections_only=True, lenient=True))
+            ctx.count()
+            ctx.hist("brace_sites", len(want))
+            if len(want) != len(set(want)):
+                ctx.nontrivial(("brace-repeat", t))
+            if w.get("status") != "success":
+                ctx.hist("surface_rejected_input", "brace stream")
+                continue
+            got = sorted((c.get("before"), c.get("after")) for c in w.get("corrections", []) if c.get("code") == "W_REPAIR_CANDIDATE")
+            if got != sorted(want):
+                ctx.property_failure({"text": t, "surface": "octave_write(lenient).corrections", "expected": sorted(want), "reported": got},
+                                     "octave_write(lenient): W_REPAIR_CANDIDATE receipts differ from the brace-for-angle rewrites in the input")
+    finally:
+        loop.close()
+
+
 def run(ctx):
     hm = doccases.have_model(ctx)
     # core fragment of Rt/TokRound.v (theorem parse_core_doc): deep nesting, scalars of every kind
@@ -111,6 +159,7 @@ def run(ctx):
                         ctx.property_failure(case, f"{name}: receipts differ from the rewrites in the input", finding=fid)
     finally:
         loop.close()
+    brace_stream(ctx)
     ctx.sample({"text": texts[1], "receipts": sorted(render.render(cases[0][0], None)[1])})
     if hm:
         sub = texts[:: max(1, len(texts) // ctx.scale(1500, 15000))]
